@@ -860,6 +860,10 @@ class QueryPlanner:
             plan_join = PlanJoin(self)
             return plan_join.plan(query, integration)
         elif isinstance(from_table, NativeQuery):
+            # the outer query runs in the planner, over the result of the native one: plan its nested selects separately
+            find_selects = self.get_nested_selects_plan_fnc(self.default_namespace, force=True)
+            self.plan_nested_selects(query, find_selects)
+
             integration = from_table.integration.parts[0].lower()
             step = FetchDataframeStep(integration=integration, raw_query=from_table.query)
             last_step = self.plan.add_step(step)
